@@ -229,13 +229,67 @@ fn poison_first_string(ty: &Ty, v: &Val) -> Val {
     }
 }
 
-fn builder_history(out: &mut Out, rng: &mut Prng, len: usize) {
+/// Send the message over a (simulated) wire and continue on the received copy: its body lives behind the header
+/// bytes in one buffer (`buf_offset` = header length), which is what a handler that forwards or amends a received
+/// message works on. Only without descriptors (they do not travel through `decode_frame`).
+fn through_the_wire(msg: &MarshalledMessage) -> Option<MarshalledMessage> {
+    let mut m = rustbus::message_builder::MessageBuilder::new().signal("a.b", "M", "/o").build();
+    m.body = rustbus::message_builder::MarshalledMessageBody::from_parts(
+        msg.get_buf().to_vec(),
+        0,
+        vec![],
+        msg.get_sig().to_string(),
+        msg.body.byteorder(),
+    );
+    let mut frame = Vec::new();
+    rustbus::wire::marshal::marshal(&m, std::num::NonZeroU32::new(7).unwrap(), &mut frame).ok()?;
+    frame.extend_from_slice(m.get_buf());
+    vcore::peer::decode_frame(&frame).ok()
+}
+
+/// how a history's body comes into being
+#[derive(Clone, Copy, PartialEq)]
+enum Start {
+    Fresh,
+    /// `from_parts` with `k * 8` foreign bytes in front of the (empty) body
+    Offset(usize),
+    /// 247..=258 single bytes first: the body signature crosses the 255 characters a SIGNATURE field can hold
+    LongSig(usize),
+}
+
+fn builder_history(out: &mut Out, rng: &mut Prng, len: usize, start: Start) {
     let bo = *rng.pick(&ORDERS);
     let mut msg = MarshalledMessage::with_byteorder(bo);
     let mut ops = Vec::new();
     let mut obs = Vec::new();
     let fds_before = count_open_fds();
+    match start {
+        Start::Fresh => {}
+        Start::Offset(k) => {
+            out.hit("start_offset_body");
+            msg.body = rustbus::message_builder::MarshalledMessageBody::from_parts(vec![0xEE; 8 * k], 8 * k, vec![], String::new(), bo);
+        }
+        Start::LongSig(n) => {
+            out.hit("start_long_signature");
+            for i in 0..n {
+                let b = (i % 251) as u8;
+                let r = msg.body.push_param(b).is_ok();
+                ops.push(format!("P:p/y/{}", b));
+                obs.push(format!("{} {}", if r { "ok" } else { "err" }, state(&msg)));
+            }
+        }
+    }
     for _ in 0..len {
+        // now and then the message travels: the rest of the history works on the received copy
+        if rng.chance(1, 12) && msg.body.get_fds().is_empty() && msg.get_sig().len() <= 255 {
+            if let Some(m2) = through_the_wire(&msg) {
+                if state(&m2) != state(&msg) {
+                    out.violation(&format!("c15.run {} {}", bo_name(bo), ops.join(";")), &format!("the received copy differs: sent [{}] received [{}]", state(&msg), state(&m2)));
+                }
+                out.hit("continued_on_received_copy");
+                msg = m2;
+            }
+        }
         let before = state(&msg);
         let r = guard(|| builder_op(rng, &mut msg, out));
         let (op, res) = match r {
@@ -259,7 +313,9 @@ fn builder_history(out: &mut Out, rng: &mut Prng, len: usize) {
         if res.is_none() && after != "buf=- sig=- nfds=0" {
             out.violation(&req_so_far, &format!("reset left something attached: {}", after));
         }
-        if msg.body.validate().is_err() {
+        // (a body whose signature is longer than 255 characters cannot be sent and does not validate; that is not
+        // the builder's business: pushes are not limited by it)
+        if msg.get_sig().len() <= 255 && msg.body.validate().is_err() {
             out.violation(&req_so_far, &format!("the body does not validate after the operation: {}", after));
         }
         out.hit(&format!("result_{}", tag));
@@ -426,7 +482,12 @@ pub fn run(cfg: &Cfg) {
     let n = if cfg.thorough { 6000 } else { 600 };
     for _ in 0..n {
         let len = if cfg.thorough { rng.range(1, 40) } else { rng.range(1, 10) } as usize;
-        builder_history(&mut out, &mut rng, len);
+        let start = match rng.below(12) {
+            0 | 1 => Start::Offset(1 + rng.below(3) as usize),
+            2 => Start::LongSig(247 + rng.below(12) as usize),
+            _ => Start::Fresh,
+        };
+        builder_history(&mut out, &mut rng, len, start);
     }
     for _ in 0..n {
         let len = if cfg.thorough { rng.range(1, 20) } else { rng.range(1, 8) } as usize;
@@ -437,7 +498,7 @@ pub fn run(cfg: &Cfg) {
     }
     let _ = ByteOrder::LittleEndian;
     out.finish(
-        "random histories over 16 builder operations (push_param of 8 typed kinds, &str with NUL, a struct / an array failing at an inner element after partial output, push_param2..5 and push_params with a NUL string at any position, push_variant, push_old_param(s) with a poisoned leaf, valid / taken descriptors, three descriptors of which the last is taken, a struct with a taken descriptor, reset): after every operation buffer, signature, descriptor count and validate() are observed; parser histories over 14 get kinds (9 single types, get_param, get2/3/4) on bodies drawn from the same menu, and on bodies with one flipped bit; distinct by request",
+        "bodies: fresh, from_parts behind 8/16/24 foreign bytes (buf_offset != 0), continued on the received copy after a trip over the wire (body behind the header in one buffer), started with 247..258 single bytes (signature crossing 255 characters); random histories over 16 builder operations (push_param of 8 typed kinds, &str with NUL, a struct / an array failing at an inner element after partial output, push_param2..5 and push_params with a NUL string at any position, push_variant, push_old_param(s) with a poisoned leaf, valid / taken descriptors, three descriptors of which the last is taken, a struct with a taken descriptor, reset): after every operation buffer, signature, descriptor count and validate() are observed; parser histories over 14 get kinds (9 single types, get_param, get2/3/4) on bodies drawn from the same menu, and on bodies with one flipped bit; distinct by request",
         false,
     );
 }
